@@ -10,12 +10,12 @@ import { TIER, SEED, sliceBySeed } from "./common.mjs";
 import { freshClient } from "./runtime.mjs";
 
 // light: for the monitors whose per-case cost is high (C03: 4 option combinations x 3 entry points); the
-// quick tier then takes every second overlap type and a sixteenth of depth 2, the thorough tier everything
+// quick tier then takes every third overlap type and a twenty-fourth of depth 2, the thorough tier everything
 export function familyPrograms({ d2slice = 8, light = false } = {}) {
   const progs = [];
-  if (light && TIER !== "thorough") d2slice = 16;
+  if (light && TIER !== "thorough") d2slice = 24;
   progs.push(...packPrograms(f1Depth1(), 40, "F1d1"));
-  progs.push(...packInline(light && TIER !== "thorough" ? f1Overlap().filter((_, i) => i % 2 === SEED % 2) : f1Overlap(), 40, "F1x"));
+  progs.push(...packInline(light && TIER !== "thorough" ? f1Overlap().filter((_, i) => i % 3 === SEED % 3) : f1Overlap(), 40, "F1x"));
   progs.push(...f2());
   progs.push(...f3());
   progs.push(...packPrograms(f4(), 40, "F4"));
